@@ -3,6 +3,7 @@ package main
 // C07: notifications are the exact difference made by the transaction.
 
 import (
+	"encoding/json"
 	"fmt"
 	"sort"
 	"strings"
@@ -125,13 +126,21 @@ func implNotifs(m MonitorJ, upd database.Update) (n1 []Notif1Row, n2 []Notif2Row
 			panicked = fmt.Sprint(p)
 		}
 	}()
-	tu2 := server.VerifFilter2(m.toOvs(), upd)
+	// the requests as the server gets them: encoded by the requesting side, decoded from the wire
+	reqs := m.toOvs()
+	if text, err := json.Marshal(reqs); err == nil {
+		var wire map[string]*ovsdb.MonitorRequest
+		if json.Unmarshal(text, &wire) == nil {
+			reqs = wire
+		}
+	}
+	tu2 := server.VerifFilter2(reqs, upd)
 	for t, rows := range tu2 {
 		for u, ru := range rows {
 			n2 = append(n2, Notif2Row{Table: t, UUID: u, Insert: rowFromOvs(ru.Insert), Modify: rowFromOvs(ru.Modify), Delete: ru.Delete != nil})
 		}
 	}
-	tu := server.VerifFilter(m.toOvs(), upd)
+	tu := server.VerifFilter(reqs, upd)
 	for t, rows := range tu {
 		for u, ru := range rows {
 			n1 = append(n1, Notif1Row{Table: t, UUID: u, Old: rowFromOvs(ru.Old), New: rowFromOvs(ru.New)})
